@@ -21,11 +21,13 @@ pub struct Model {
     pub order: Vec<Ent>,
     pub limit: usize,
     present: Vec<bool>,
+    /// running sum of the recorded sizes (kept equal to the sum over `order`)
+    sum: usize,
 }
 
 impl Model {
     pub fn new(limit: usize, universe: usize) -> Model {
-        Model { order: Vec::new(), limit, present: vec![false; universe] }
+        Model { order: Vec::new(), limit, present: vec![false; universe], sum: 0 }
     }
 
     pub fn len(&self) -> usize {
@@ -33,7 +35,13 @@ impl Model {
     }
 
     pub fn total(&self) -> usize {
-        self.order.iter().map(|e| e.size).sum()
+        self.sum
+    }
+
+    /// Changes the recorded size of the i-th entry.
+    pub fn set_size(&mut self, i: usize, size: usize) {
+        self.sum = self.sum - self.order[i].size + size;
+        self.order[i].size = size;
     }
 
     pub fn pos(&self, k: u16) -> Option<usize> {
@@ -57,12 +65,14 @@ impl Model {
             self.present.resize(e.k as usize + 1, false);
         }
         self.present[e.k as usize] = true;
+        self.sum += e.size;
         self.order.push(e);
     }
 
     pub fn remove_at(&mut self, i: usize) -> Ent {
         let e = self.order.remove(i);
         self.present[e.k as usize] = false;
+        self.sum -= e.size;
         e
     }
 
@@ -87,6 +97,7 @@ impl Model {
         for e in &self.order {
             self.present[e.k as usize] = false;
         }
+        self.sum = 0;
         std::mem::take(&mut self.order)
     }
 
@@ -111,6 +122,7 @@ impl Model {
             }
             self.present[e.k as usize] = true;
         }
+        self.sum = ents.iter().map(|e| e.size).sum();
         self.order = ents;
     }
 }
